@@ -251,17 +251,24 @@ def correspondence(ctx):
             ops.append(f'C18 ieof {d} {f2b(a)}'); impl.append(guarded(lambda: np.float64(S.get_Isotropic_eof(d, a))))
     with np.errstate(all='ignore'):
         run(ops, impl, 1e-13, 'f')
+    # REE: branch tag and value (the entangled branch is the relative entropy to the boundary state, in nats)
     ops, impl = [], []
-    for d in [2, 3, 4]:
-        for a in werner_grid(ctx, d)[:10]:
-            ops.append(f'C18 wree {d} {f2b(a)}')
-            impl.append(guarded(lambda: 'zero' if (lambda r: isinstance(r, int) and r == 0)(S.get_Werner_ree(d, a)) else 'generic'))
-        for a in iso_grid(ctx, d)[:10]:
-            ops.append(f'C18 iree {d} {f2b(a)}')
-            impl.append(guarded(lambda: 'zero' if (lambda r: isinstance(r, int) and r == 0)(S.get_Isotropic_ree(d, a)) else 'generic'))
+    for d in [2, 3, 4, 5, 7]:
+        for a in werner_grid(ctx, d):
+            ops.append(f'C18 wree {d} {f2b(a)}'); impl.append(guarded(lambda: S.get_Werner_ree(d, a)))
+        for a in iso_grid(ctx, d):
+            ops.append(f'C18 iree {d} {f2b(a)}'); impl.append(guarded(lambda: S.get_Isotropic_ree(d, a)))
     model = common.run_model(ops)
-    for op, a, b in zip(ops, impl, model):
-        cmp(ctx, op, a == b, b, a)
+    for op, r, b in zip(ops, impl, model):
+        mb = b.split(' ')
+        if isinstance(r, str) or len(mb) != 2:
+            cmp(ctx, op, r == b, b, r); continue
+        tag = 'zero' if (isinstance(r, int) and r == 0) else 'generic'
+        mv = b2f(mb[1])
+        # the implementation evaluates Tr rho log rho with eigenvalues clamped at eps: deviations ~ d^2 * 1e-15
+        ok = tag == mb[0] and abs(float(r) - mv) <= 1e-11
+        if ok: delta['floatops'] = max(delta['floatops'], abs(float(r) - mv))
+        cmp(ctx, op, ok, b, r)
 
     # ---- UPB tables (exact) and the product / complement construction (exact on the binary64 values) -------------------
     ops, impl = [], []
@@ -356,6 +363,12 @@ def pt(rho, dA, dB, party=1):
 
 def min_eig(M):
     return float(np.linalg.eigvalsh((M + M.conj().T) / 2)[0])
+
+
+def amax(a):
+    """max |a| with NaN counted as +inf"""
+    a = np.abs(np.asarray(a))
+    return float('inf') if (a.size and np.isnan(a).any()) else (float(a.max()) if a.size else 0.0)
 
 
 def ref_horodecki2x4(b):
@@ -684,6 +697,28 @@ def probe(ctx):
                 ctx.fail('Isotropic-measures-generic', f'closed-form EOF/GME of Isotropic(2,{a}) disagrees with the generic two-qubit routines: {r}', dict(op='Isotropic-generic', alpha=float(a)))
             else:
                 ctx.probe_ok(('igen', float(a)))
+
+    # closed forms against generic routines for d >= 3: pure end point of the isotropic family (all three measures have textbook
+    # values and get_eof_pure applies), and the SDP-based PPT relative entropy (for these U x U / U x conj(U) symmetric families the
+    # closest PPT state is the separable boundary state, so REE_PPT = REE)
+    for d in range(2, 9):
+        def f():
+            psi = S.maximally_entangled_state(d)
+            return (abs(float(S.get_Isotropic_eof(d, 1.0)) - math.log(d)), abs(float(S.get_Isotropic_GME(d, 1.0)) - (1 - 1 / d)), abs(float(S.get_Isotropic_ree(d, 1.0)) - math.log(d)),
+                    abs(float(numqi.entangle.get_eof_pure(psi.reshape(d, d))) - float(S.get_Isotropic_eof(d, 1.0))), amax(S.Isotropic(d, 1.0) - np.outer(psi, psi)))
+        r = guarded(f)
+        if isinstance(r, str) or not (max(r) <= 1e-10):
+            ctx.fail('Isotropic-measures-pure', f'closed forms at alpha=1 (maximally entangled pure state, d={d}): EOF/REE != log d, GME != 1-1/d or get_eof_pure disagrees: {r}', dict(op='Isotropic-pure', d=d))
+        else:
+            ctx.probe_ok(('isopure', d))
+    sdp_pts = [(2, 0.8), (3, 0.7)] if ctx.quick() else [(2, 0.6), (2, 0.8), (2, 1.0), (3, 0.4), (3, 0.7), (3, 1.0), (4, 0.5), (4, 0.9)]
+    for d, a in sdp_pts:
+        for name, f, g in [('Werner', S.Werner, S.get_Werner_ree), ('Isotropic', S.Isotropic, S.get_Isotropic_ree)]:
+            r = guarded(lambda: (float(numqi.entangle.get_ppt_ree(f(d, a), d, d, use_tqdm=False)), float(g(d, a))))
+            if isinstance(r, str) or not (abs(r[0] - r[1]) <= 2e-4 * max(1.0, r[1])):
+                ctx.fail(f'{name}-ree-generic', f'get_{name}_ree({d},{a}) = {r if isinstance(r, str) else r[1]} disagrees with the generic SDP routine get_ppt_ree = {r if isinstance(r, str) else r[0]}', dict(op=f'{name}-ree-generic', d=d, alpha=float(a)))
+            else:
+                ctx.probe_ok((name, 'ree-sdp', d, a))
 
     # UPBs: orthonormal product vectors; complement projector is a PPT state of rank D-|UPB|
     for kind, args in upb_cases(ctx):
